@@ -79,12 +79,12 @@ def inject(spec0, c):
   pieces, ref, cls_inst = driven_pieces(spec)
   kinds = ["dup_same", "dup_overlap", "dup_parent_field", "net_plus_block", "net_plus_net", "remove_driver",
            "loop", "read_child_wire", "write_own_inport", "write_child_outport", "write_child_wire",
-           "op_in_update", "op_in_update_ff", "ff_to_slice", "const_bad_position", "dup_via_func"]
+           "op_in_update", "op_in_update_ff", "ff_to_slice", "const_bad_position", "dup_via_func", "net_plus_block_ancestor"]
   c.shuffle(kinds)
   # the structurally demanding kinds are rarely feasible: try one of them first half of the time
   if c.random() < 0.5:
     first = c.choice(["remove_driver", "loop", "read_child_wire", "dup_parent_field", "net_plus_net", "write_child_outport",
-                      "const_bad_position", "dup_via_func"])
+                      "const_bad_position", "dup_via_func", "net_plus_block_ancestor", "net_plus_block_ancestor"])
     kinds.remove(first)
     kinds.insert(0, first)
   for kind in kinds:
@@ -157,6 +157,41 @@ def _try(spec, kind, c, pieces, ref, cls_inst):
           if ok:
             _newblk(spec["comps"][cname], "zdup", [["assign", path[:-1], ["mkstruct", t, args, w]]])
             return {MW}
+  if kind == "net_plus_block_ancestor":
+    # a net drives a leaf two or more levels below a struct signal (x.p.a, x.q[0:4]); a block writes the
+    # whole struct x: two drivers although the intermediate object x.p / x.q is otherwise untouched
+    from ..gen.spec import field_layout, tbits
+
+    def const_struct(t):
+      args = []
+      for fname, ft, flo, fw in field_layout(spec, t):
+        if isinstance(ft, int):
+          args.append(["const", ft, c.getrandbits(ft)])
+        elif isinstance(ft, str):
+          sub = const_struct(ft)
+          if sub is None:
+            return None
+          args.append(sub)
+        else:
+          return None
+      return ["mkstruct", t, args, tbits(spec, t)]
+    for (cname, j, k, path) in P:
+      if k != "net" or len(path) < 3:
+        continue
+      for n in range(1, len(path) - 1):
+        if path[n - 1][0] not in ("a", "i") or path[n][0] not in ("a",):
+          continue
+        try:
+          key, lo, w, t = piece_info(ref, cls_inst[cname], path[:n])
+        except Exception:
+          continue
+        if not isinstance(t, str):
+          continue
+        e = const_struct(t)
+        if e is None:
+          continue
+        _newblk(spec["comps"][cname], "zdup", [["assign", path[:n], e]])
+        return {MW}
   if kind == "net_plus_block":
     for (cname, j, k, path) in P:
       if k == "net":
